@@ -576,6 +576,9 @@ func (r *Run) checkNumberRoute(P string, fns []*ssa.Function) {
 			nNum++
 		case t.Root() != nil && t.Root().Op == "global" && strings.HasSuffix(t.Root().Name, "literals") && hasEqWith(ri.Facts, t):
 			nLit++
+		case eqWithLiteral(ri.Facts, t):
+			// the token itself, returned where it is known to equal an element of the literal table
+			nLit++
 		default:
 			good = false
 			det = append(det, r.P.Pos(ri.Ret.Pos())+": returns "+t.String())
@@ -615,6 +618,23 @@ func (r *Run) checkNumberRoute(P string, fns []*ssa.Function) {
 }
 
 // hasEqWith: some must-fact equates term t with something.
+// eqWithLiteral: the facts say t equals an element of the package's literal table.
+func eqWithLiteral(fs core.FactSet, t *core.Term) bool {
+	s := t.String()
+	isLit := func(x *core.Term) bool {
+		return x.Op == "idx" && x.Root() != nil && x.Root().Op == "global" && strings.HasSuffix(x.Root().Name, "literals")
+	}
+	for _, f := range fs {
+		if f.Kind != "cmp" || f.Op != "==" {
+			continue
+		}
+		if (f.A.String() == s && isLit(f.B)) || (f.B.String() == s && isLit(f.A)) {
+			return true
+		}
+	}
+	return false
+}
+
 func hasEqWith(fs core.FactSet, t *core.Term) bool {
 	s := t.String()
 	for _, f := range fs {
